@@ -197,8 +197,14 @@ def check_attr_stores(ctx, rule, sites):
                 if w is None or fields[field].is_list or val is None or _is_none(val):
                     continue
                 where = '%s.%s' % (mname, q)
+                bval = _boolish(val)
+                if isinstance(val, ast.Name):
+                    # one level of local definitions: x = (a in b); se.f = x
+                    defs = [s2.value for s2 in walk_no_nested(f) if isinstance(s2, ast.Assign)
+                            and any(isinstance(t2, ast.Name) and t2.id == val.id for t2 in s2.targets)]
+                    bval = any(_boolish(d) for d in defs)
                 ctx.ob(rule, '%s:%s.%s:store-not-boolean-valued' % (where, struct, field),
-                       not _boolish(val),
+                       not bval,
                        'integer/enum field %s.%s is assigned the expression %s; a Python bool is '
                        'serialised with the BOOLEAN wire type instead of %s' % (struct, field, norm(val), w),
                        m.loc(st))
